@@ -317,6 +317,10 @@ func LiteralInfoFromURI(uri string) (*LiteralInfo, error) {
 	// The relative portion of the URI is the 4th submatch in the regexp.
 	relStartIdx := uriIndexes[8]
 	baseUrl := strings.TrimRight(uri[0:relStartIdx], "/")
+	if strings.HasSuffix(baseUrl, ":") {
+		// an empty authority ("http:///Patient/1"): the slashes of the scheme are not separators to trim
+		baseUrl += "//"
+	}
 	relUrl := uri[relStartIdx:]
 
 	// The REST regexp could be used to identify all the parts of the relative URI,
